@@ -51,6 +51,9 @@ type upgradeScenario struct {
 	RestartOld   bool         `json:"restart_old"`   // restart the halted previous release once more
 	RestartAt    string       `json:"restart_at"`    // "", "redeliver" (inside the upgrade block), "endblock"
 	RestartAfter bool         `json:"restart_after"` // restart right after the upgrade block
+	// Heritage: the version map also holds entries of modules that earlier releases retired
+	// (every store an earlier descriptor deletes), as on a chain that came through those releases.
+	Heritage bool `json:"heritage,omitempty"`
 	TailSteps    []world.Step `json:"tail_steps"`
 }
 
@@ -73,6 +76,23 @@ func restorePreviousVersions(a *app.App, ctx sdk.Context) int {
 	}
 	if n > 0 {
 		a.UpgradeKeeper.SetModuleVersionMap(ctx, vm)
+	}
+	return n
+}
+
+// leaveHeritage writes version-map entries for the modules earlier descriptors retired (their
+// Deleted stores): x/upgrade never removes entries, so a chain that came through those releases
+// still carries them.
+func leaveHeritage(a *app.App, ctx sdk.Context) int {
+	us := ctx.KVStore(a.GetKey(upgradetypes.StoreKey))
+	n := 0
+	for _, u := range app.Upgrades {
+		for _, name := range u.StoreUpgrades.Deleted {
+			var b [8]byte
+			b[7] = 1
+			us.Set(append([]byte{upgradetypes.VersionMapByte}, []byte(name)...), b[:])
+			n++
+		}
 	}
 	return n
 }
@@ -135,6 +155,11 @@ func runUpgrade(cfg *MachineCfg, sc *upgradeScenario, gen func(w *world.World, t
 	}
 	if restorePreviousVersions(w.C.App, w.C.DeliverCtx()) > 0 {
 		w.Label("c19 stored module versions put back to the previous release's")
+	}
+	if sc.Heritage {
+		if leaveHeritage(w.C.App, w.C.DeliverCtx()) > 0 {
+			w.Label("c19 version map with entries of retired modules")
+		}
 	}
 	if _, err := w.C.EndBlock(); err != nil {
 		return w, hashes, vio19("%v", err)
@@ -235,7 +260,7 @@ func runUpgrade(cfg *MachineCfg, sc *upgradeScenario, gen func(w *world.World, t
 	}
 	vm := w.C.App.UpgradeKeeper.GetModuleVersionMap(ctx)
 	want := w.C.App.ModuleManager.GetVersionMap()
-	if len(vm) != len(want) {
+	if len(vm) < len(want) {
 		return w, hashes, vio19("stored module version map has %d entries, the release has %d modules", len(vm), len(want))
 	}
 	for m, v := range want {
@@ -284,7 +309,7 @@ func runUpgrade(cfg *MachineCfg, sc *upgradeScenario, gen func(w *world.World, t
 // replayBlocksNoRestart executes the recorded committed blocks on a fresh chain that starts
 // on the previous release, halts at the scheduled height, continues on the full release and
 // is otherwise never stopped; every application hash must equal the recorded one.
-func replayBlocksNoRestart(blocks []*world.BlockRec) error {
+func replayBlocksNoRestart(blocks []*world.BlockRec, heritage bool) error {
 	home := caseDir("c19-twin-")
 	defer os.RemoveAll(home)
 	name := app.Upgrades[len(app.Upgrades)-1].UpgradeName
@@ -312,6 +337,9 @@ func replayBlocksNoRestart(blocks []*world.BlockRec) error {
 				return err
 			}
 			restorePreviousVersions(c.App, c.DeliverCtx())
+			if heritage {
+				leaveHeritage(c.App, c.DeliverCtx())
+			}
 		}
 		for _, raw := range b.Raw {
 			c.DeliverTx(raw)
@@ -349,6 +377,17 @@ var CfgC10PostUpgrade = &MachineCfg{
 // and the committed blocks are replayed on instances that never stopped.
 func TestC10PostUpgrade(t *testing.T) { upgradePlan(t, CfgC10PostUpgrade, 16) }
 
+// CfgC05PostUpgrade: tombstones across the software upgrade that leads to this release (a node
+// "restart" in which the binary changes): deactivations before the upgrade height, every kind
+// of attempt on the tombstones after it.
+var CfgC05PostUpgrade = &MachineCfg{
+	Prop: "C05", Also: []string{"C03", "C04", "C11"},
+	Gens: []interface{}{"did", 70, "commit", 16, "crash", 3, "restart", 4, "bank", 2, "aol", 3, "pnft", 2},
+	Bias: map[string]int{"right-signers": 95, "exec": 2, "right-proof": 78, "did-deactivate": 28, "aim-tomb": 45, "did-replay": 8, "update-to-empty": 12},
+}
+
+func TestC05PostUpgrade(t *testing.T) { upgradePlan(t, CfgC05PostUpgrade, 12) }
+
 func upgradePlan(t *testing.T, cfg *MachineCfg, tailSteps int) {
 	rapid.Check(t, func(rt *rapid.T) {
 		g := &G{T: rt, Bias: cfg.Bias}
@@ -357,6 +396,7 @@ func upgradePlan(t *testing.T, cfg *MachineCfg, tailSteps int) {
 		sc.RestartOld = g.chance("restart-old", 35)
 		sc.RestartAt = pick(g, "restart-at", []string{"", "", "redeliver", "endblock"})
 		sc.RestartAfter = g.chance("restart-after", 40)
+		sc.Heritage = g.chance("heritage", 40)
 		n1 := 8 + g.intn("pre-steps", 24)
 		n2 := 2 + g.intn("tail-steps", tailSteps)
 		k := 0
@@ -386,7 +426,7 @@ func upgradePlan(t *testing.T, cfg *MachineCfg, tailSteps int) {
 		}
 		// the same committed blocks on instances that are never restarted (apart from the
 		// unavoidable switch of binaries at the upgrade height)
-		if err := replayBlocksNoRestart(w.Blocks); err != nil {
+		if err := replayBlocksNoRestart(w.Blocks, sc.Heritage); err != nil {
 			fail(w, err)
 		}
 		_ = h1
@@ -394,6 +434,9 @@ func upgradePlan(t *testing.T, cfg *MachineCfg, tailSteps int) {
 			lab(w, "c19 restart before the upgrade")+lab(w, "c19 restart at the upgrade height")+lab(w, "c19 restart after the upgrade") > 0
 		if cfg.Prop == "C10" {
 			nt = lab(w, "c19 restart after the upgrade")+lab(w, "c19 restart at the upgrade height") > 0 || sc.tailStops() > 0
+		}
+		if cfg.Prop == "C05" {
+			nt = lab(w, "did deactivated") > 0 && lab(w, "did attempt on tombstone") > 0
 		}
 		cfgc := *cfg
 		cfgc.NonTrivial = func(*world.World) bool { return nt }
@@ -414,6 +457,9 @@ func init() {
 		cfg := CfgC19
 		if doc.Property == "C10" {
 			cfg = CfgC10PostUpgrade
+		}
+		if doc.Property == "C05" {
+			cfg = CfgC05PostUpgrade
 		}
 		if _, _, err := runUpgrade(cfg, &doc.Scenario, nil, true); err != nil {
 			fmt.Printf("REPLAY-VIOLATION property=%s %v\n", cfg.Prop, err)
